@@ -23,6 +23,7 @@ RULE = ("cases = (left point frame, right frame of any geometry kind, how, suffi
 ASSUMPTIONS = ["exactness domain as in C02; result row order and column order are not compared",
                "numeric values are compared as floats (pandas turns integer columns with missing "
                "values into floats), missing as NaN"]
+USE_CONTRACTS = True      # in-situ icontract monitors (vmon/contracts.py)
 DECIDING_COUNTERS = ["joins_checked"]
 
 RIGHT_KINDS = ["polygon", "multipolygon", "line", "multiline", "point", "multipoint"]
